@@ -3,5 +3,7 @@
 [ "$1" = "thorough" ] || exit 0
 ROOT=$(cd "$(dirname "$0")/.." && pwd)
 rc=0
+"$ROOT/stages/fuzz.sh" C13 c13_guard 1000000 1024 || rc=$?
+[ $rc -eq 1 ] && exit 1
 "$ROOT/stages/miri.sh" C13 || rc=$?
 exit $rc
